@@ -64,12 +64,19 @@ func c16loc(zone string) *time.Location {
 		}
 		return time.FixedZone("", off)
 	}
+	// one *time.Location per zone name for the whole process, as programs that load a zone once have it
+	if l, ok := c16locs[zone]; ok {
+		return l
+	}
 	l, err := time.LoadLocation(zone)
 	if err != nil {
 		panic(err)
 	}
+	c16locs[zone] = l
 	return l
 }
+
+var c16locs = map[string]*time.Location{}
 
 func c16eval(cas c16case) *Violation {
 	// the process's own zone is not UTC: "the instant's own zone" and "the machine's zone" are different things
